@@ -27,6 +27,7 @@ class Module:
             self.tree = ast.parse(source, filename=relpath)
         except SyntaxError as exc:  # pragma: no cover
             raise AnalysisError(f'parse error in {relpath}: {exc}')
+        self.tree = unroll_literal_loops(self.tree)
         for node in ast.walk(self.tree):
             for child in ast.iter_child_nodes(node):
                 child._parent = node
@@ -36,6 +37,69 @@ class Module:
 
     def __repr__(self):
         return f'<Module {self.name}>'
+
+
+def unroll_literal_loops(tree):
+    """Normalisation: `for name in ('a', 'b'): body` (a literal tuple/list of constants, possibly through a
+    single-assignment local, no break/continue/else) becomes the body repeated with the constant substituted.
+    Behaviour-preserving; lets attribute-level rules see `self.__dict__.pop(name)` / `setattr(obj, key, ...)`."""
+    import copy
+
+    class Subst(ast.NodeTransformer):
+        def __init__(self, name, const):
+            self.name, self.const = name, const
+
+        def visit_Name(self, n):
+            if n.id == self.name and isinstance(n.ctx, ast.Load):
+                return ast.copy_location(ast.Constant(value=self.const), n)
+            return n
+
+    def literal_of(fnnode, it):
+        if isinstance(it, (ast.Tuple, ast.List)) and it.elts and len(it.elts) <= 8 and all(
+                isinstance(e, ast.Constant) and isinstance(e.value, (str, int)) for e in it.elts):
+            return [e.value for e in it.elts]
+        if isinstance(it, ast.Name) and fnnode is not None:
+            defs = [n for n in ast.walk(fnnode) if isinstance(n, ast.Assign) and any(isinstance(t, ast.Name) and t.id == it.id for t in n.targets)]
+            others = [n for n in ast.walk(fnnode) if isinstance(n, (ast.AugAssign, ast.For)) and isinstance(getattr(n, 'target', None), ast.Name)
+                      and n.target.id == it.id]
+            muts = [n for n in ast.walk(fnnode) if isinstance(n, ast.Call) and isinstance(n.func, ast.Attribute) and isinstance(n.func.value, ast.Name)
+                    and n.func.value.id == it.id]
+            if len(defs) == 1 and not others and not muts:
+                return literal_of(None, defs[0].value)
+        return None
+
+    class Unroll(ast.NodeTransformer):
+        def __init__(self):
+            self.fn = None
+
+        def visit_FunctionDef(self, node):
+            old, self.fn = self.fn, node
+            self.generic_visit(node)
+            self.fn = old
+            return node
+
+        visit_AsyncFunctionDef = visit_FunctionDef
+
+        def visit_For(self, node):
+            self.generic_visit(node)
+            if node.orelse or not isinstance(node.target, ast.Name):
+                return node
+            if any(isinstance(x, (ast.Break, ast.Continue)) for b in node.body for x in ast.walk(b)):
+                return node
+            if any(isinstance(x, ast.Name) and x.id == node.target.id and isinstance(x.ctx, ast.Store) for b in node.body for x in ast.walk(b)):
+                return node
+            vals = literal_of(self.fn, node.iter)
+            if vals is None:
+                return node
+            out = []
+            for v in vals:
+                for b in node.body:
+                    out.append(Subst(node.target.id, v).visit(copy.deepcopy(b)))
+            return out
+
+    tree = Unroll().visit(tree)
+    ast.fix_missing_locations(tree)
+    return tree
 
 
 class ClassInfo:
